@@ -3,7 +3,7 @@
    when the escape arms are complete, and a counterexample when they are not;
    white space; integer literals. *)
 From Ink.Data Require Import Types.
-From Ink.Json Require Import JsonStd JsonStdProofs Tokenizer.
+From Ink.Json Require Import JsonStd JsonStdProofs TokenizerCore.
 From Coq Require Import Lia.
 
 (* the tokenizer inside a string literal: no lookahead, no white-space skipping *)
